@@ -88,6 +88,10 @@ KDE_TYPES = ["histogram", "gauss", "multivariate", "none"]
 SCALES = ["linear", "log"]
 HUGE = 2 ** 70            # in units of 1/8; 2^67 as a float, exact
 
+# cases per pass: meta, stats, fake, perc, quant
+SIZES = {"quick": (96, 240, 240, 240, 120),
+         "thorough": (1500, 3000, 3000, 3000, 1500)}
+
 HEADER = ("From Coq Require Import ZArith List.\nImport ListNotations.\n"
           "From Verif Require Import Model.C12.\n")
 
@@ -1214,11 +1218,11 @@ def meta_collect(run, cases, results):
 def run(run):
     corpus = load_corpus()
     run.count("corpus", len(corpus))
-    n_meta = 1500 if run.thorough else 150
-    n_stats = 3000 if run.thorough else 300
-    n_fake = 3000 if run.thorough else 300
-    n_perc = 3000 if run.thorough else 300
-    n_quant = 1500 if run.thorough else 150
+    n_meta, n_stats, n_fake, n_perc, n_quant = SIZES[
+        "thorough" if run.thorough else "quick"]
+    # one BLAS thread per worker process (inherited through the environment)
+    for var in ("OMP_NUM_THREADS", "OPENBLAS_NUM_THREADS", "MKL_NUM_THREADS"):
+        os.environ.setdefault(var, "1")
 
     # --- correspondence passes (model vs implementation) -------------------
     stats_cases = [c for c in corpus if c.get("kind") == "stats"]
